@@ -218,6 +218,38 @@ def run(tier, seed, replay):
         _, _, vh = np.linalg.svd(Lm)
         ref = vh[-1].conj().reshape(H.shape[0], H.shape[0], order="F")
         ref = ref / np.trace(ref)
+        # the same generator handed over in other forms: the Liouvillian alone, the unitary part plus every collapse operator,
+        # part of the dissipators inside and the rest as c_ops - with a collapse operator whose c^dagger c is complex
+        try:
+            cx = 0.4 * (c[0] + 0.5j * qutip.Qobj(_rand_herm(rng, H.shape[0]), dims=c[0].dims))
+            c_all = list(c) + [cx]
+            Lall = qutip.liouvillian(H, c_all).full()
+            svx = np.linalg.svd(Lall, compute_uv=False)
+            if svx[-2] > 1e-6 * svx[0]:
+                _, _, vhx = np.linalg.svd(Lall)
+                refx = vhx[-1].conj().reshape(H.shape[0], H.shape[0], order="F")
+                refx = refx / np.trace(refx)
+                forms = {"H + c_ops": lambda f_: (H.to(f_), [x.to(f_) for x in c_all]), "the Liouvillian alone": lambda f_: (qutip.liouvillian(H, c_all).to(f_), []),
+                         "the unitary part as a Liouvillian + c_ops": lambda f_: (qutip.liouvillian(H).to(f_), [x.to(f_) for x in c_all]),
+                         "a Liouvillian holding part of the dissipators + the other c_ops": lambda f_: (qutip.liouvillian(H, c_all[:1]).to(f_), [x.to(f_) for x in c_all[1:]])}
+                for fname_, mkf in forms.items():
+                    for fmt_ in ("csr", "dense"):
+                        for method_ in ("direct", "svd", "power"):
+                            A_, cc_ = mkf(fmt_)
+                            with warnings.catch_warnings():
+                                warnings.simplefilter("ignore")
+                                with core.time_limit(120):
+                                    rx = qutip.steadystate(A_, cc_, method=method_)
+                            rep.evaluations += 1
+                            rep.count("input-form")
+                            if np.abs(rx.full() - refx).max() > 1e-6:
+                                v(f"input-form:{method_}", f"{kind}: steadystate given {fname_} ({fmt_}, {method_}) differs from the null vector of the full generator by {np.abs(rx.full() - refx).max():.2e} (trace {rx.tr():.6f})",
+                                  {"system": kind, "form": fname_, "format": fmt_, "method": method_})
+        except core.CaseTimeout:
+            raise
+        except Exception as e:
+            rep.count("input-form-raises=" + type(e).__name__)
+            rep.notes.setdefault("raising_combinations", {}).setdefault(f"input-form:{type(e).__name__}", str(e)[:120])
         results = {}
         for fmt in ("csr", "dense", "dia"):
             for method, kw in combos:
